@@ -8,7 +8,7 @@
      prog_names_ok p   every type / constructor / destructor name is free of "[" "]" "," " " and is not
                        "i64" (true of every parsed program: the lexer's name classes);
      decl_types_wf ts  the types written inside data/codata declarations are well-formed (the
-                       complement of the former finding C15-lazy-declaration-types; since fix <commit15>
+                       complement of the former finding C15-lazy-declaration-types; since fix eb42971
                        implied by acceptance: Proof/CheckDecls.v, and the unguarded theorems are in
                        Proof/CheckFixed.v). *)
 From Coq Require Import List ZArith String Bool Permutation.
